@@ -236,6 +236,9 @@ func init() {
 		}
 		return in.tb.Ite(in.tb.FLt(t, in.tb.Float(0)), in.tb.FNeg(t), t)
 	}
+	externals["math.Signbit"] = func(in *Interp, fr *frame, args []value) value {
+		return in.tb.FIsNeg(args[0].(*Term))
+	}
 	externals["math.IsNaN"] = func(in *Interp, fr *frame, args []value) value {
 		return in.tb.FIsNaN(args[0].(*Term))
 	}
@@ -361,11 +364,16 @@ func (in *Interp) pfOK(bs []*Term) *Term {
 		digits = in.tb.And(digits, in.tb.And(in.tb.BVULe(in.tb.BV(SBV8, '0'), b), in.tb.BVULe(b, in.tb.BV(SBV8, '9'))))
 	}
 	in.assume(in.tb.Or(in.tb.Not(outside), in.tb.Not(okT)))
-	_ = digits
 	// a plain decimal [+-]digits[.digits] (at least one digit) => accepted
 	simple := in.simpleDecimal(bs)
 	in.assume(in.tb.Or(in.tb.Not(simple), okT))
 	in.path.pfTokens = append(in.path.pfTokens, in.tb.Or(in.tb.Not(okT), simple))
+	if n == 1 {
+		// a one-digit token has the value of its digit
+		val := in.tb.UF("pf1", SFloat, bs[0])
+		d := in.tb.IntToFloat(in.tb.BVSub(in.tb.BVConv(bs[0], SBV64, false), in.tb.BV(SBV64, '0')), true)
+		in.assume(in.tb.Or(in.tb.Not(digits), in.tb.Eq(val, d)))
+	}
 	return okT
 }
 
